@@ -77,6 +77,8 @@ class PairAdapter:
             self.close()
             raise
         self.pkts = {}      # stream -> [packed bytes of each queued packet]
+        self.last = {}      # stream -> (the caller's last packet object, its bytes)
+        self.mine = []      # every packet object the caller made, with the bytes it packed to
         self.nq = 0
 
     def close(self):
@@ -118,23 +120,32 @@ class PairAdapter:
                 else:
                     recvb[s] = len(held)
                 parsed[s] = len(got) if got == pk[:len(got)] else ("not the queued packets", tuple(tuple(x) for x in got))
+        # a packet handed to transmit() is still the caller's: its bytes must be what they were
+        for (pkt, wire) in self.mine:
+            if bytes(pkt.packed) != wire:
+                for s in sentb:
+                    if wire in self.pkts.get(s, []):
+                        sentb[s] = ("the caller's packet was changed by the stack", tuple(wire), "now", tuple(bytes(pkt.packed)))
         return {"sentb": sentb, "recvb": recvb, "parsed": parsed}
 
     # ---- steps
     def step(self, name, args, expected):
         if name == "Transmit":
-            p, d, n = int(args[0]), str(args[1]), int(args[2])
-            self.nq += 1
-            body = bytes((0x41 + (self.nq * 7 + i) % 26) for i in range(n - 1))
+            p, d, n, how = int(args[0]), str(args[1]), int(args[2]), str(args[3])
+            st = self.clients[p] if d == "up" else self.server
+            if how == "same":          # the caller queues its last packet object once more
+                pkt, wire = self.last[(p, d)]
+            else:
+                self.nq += 1
+                body = bytes((0x41 + (self.nq * 7 + i) % 26) for i in range(n - 1))
+                pkt, wire = self.LenPacket(stack=st, payload=body), bytes([n - 1]) + body
+                self.last[(p, d)] = (pkt, wire)
+                self.mine.append((pkt, wire))
             if d == "up":
-                st = self.clients[p]
-                pkt = self.LenPacket(stack=st, payload=body)
                 st.transmit(pkt)
             else:
-                st = self.server
-                pkt = self.LenPacket(stack=st, payload=body)
                 st.transmit(pkt, self.ca[p])
-            self.pkts.setdefault((p, d), []).append(bytes([n - 1]) + body)
+            self.pkts.setdefault((p, d), []).append(wire)
         elif name == "ServeClient":
             p, a, r, c = int(args[0]), int(args[1]), int(args[2]), int(args[3])
             k = self.csock[p]
